@@ -365,6 +365,67 @@ theorem parse_body_altered_iff (ks : Nat → UInt8) (off : Nat) (p : Packet) (hp
     · intro h; cases h
     · rintro ⟨h, _, _⟩; exact h.elim
 
+/-! ### the frame grammar (independent of the parser) -/
+
+/-- A WELL-FORMED FRAME for packet `p`, as the protocol describes it — not as the parser computes it: four bytes of
+little-endian length, a 32-byte nonce, the payload, and the 32-byte hash of nonce ‖ payload; the length counts nonce,
+payload and hash and does not exceed the limit. -/
+def WellFormedFrame (frame : Bytes) (p : Packet) : Prop :=
+  ∃ c : Bytes, frame = le32 (p.payload.length + 64) ++ (p.nonce ++ (p.payload ++ c)) ∧
+    p.nonce.length = 32 ∧ c.length = 32 ∧ p.payload.length + 64 ≤ maxLen ∧ c = H (p.nonce ++ p.payload)
+
+theorem le32_of_take4 (m : Bytes) (h4 : 4 ≤ m.length) (hL : readLe32 (m.take 4) < 4294967296) :
+    m.take 4 = le32 (readLe32 (m.take 4)) := by
+  have hlen : (m.take 4).length = 4 := by simp [List.length_take]; omega
+  match hq : m.take 4, hlen with
+  | [a, b, c, d], _ => exact (readLe32_four_eq_iff a b c d _ (by rw [hq] at hL; exact hL)).mp rfl
+
+/-- PARSER = GRAMMAR: `ParsePacket` delivers `(p, rest)` from a stream exactly when the stream is the encryption (at the
+current keystream offset) of a well-formed frame for `p`, followed by `rest`. -/
+theorem parse_delivers_iff_frame (ks : Nat → UInt8) (off : Nat) (s : Bytes) (p : Packet) (rest : Bytes) :
+    parsePacket H ks off s = .ok (some (p, rest)) ↔
+      ∃ frame, WellFormedFrame H frame p ∧ s = xorStream ks off frame ++ rest := by
+  constructor
+  · intro h
+    obtain ⟨h4, hlo, hhi, hlen, hsum, hp, hr⟩ := (parse_delivers_iff H ks off s p rest).mp h
+    generalize hL : readLe32 (xorStream ks off (s.take 4)) = L at hlo hhi hlen hsum hp hr
+    generalize hdata : xorStream ks (off + 4) ((s.drop 4).take L) = data at hsum hp
+    have hmax : maxLen = 8388608 := rfl
+    have hlen' : L ≤ s.length - 4 := by simpa [List.length_drop] using hlen
+    have hdl : data.length = L := by rw [← hdata]; simp [List.length_take]; omega
+    -- the decrypted header is le32 L
+    have hhdr : xorStream ks off (s.take 4) = le32 L := by
+      have h1 : (xorStream ks off (s.take 4)).take 4 = xorStream ks off (s.take 4) := by
+        rw [List.take_of_length_le (by simp [List.length_take]; omega)]
+      have := le32_of_take4 (xorStream ks off (s.take 4)) (by simp [List.length_take]; omega)
+        (by rw [h1, hL]; omega)
+      rw [h1, hL] at this
+      exact this
+    have hpn : p.nonce = data.take 32 := by rw [hp]
+    have hpp : p.payload = (data.drop 32).take (L - 64) := by rw [hp]
+    have hpl : p.payload.length = L - 64 := by rw [hpp]; simp [List.length_take, hdl]; omega
+    have hsplit : data = p.nonce ++ (p.payload ++ data.drop (L - 32)) := by
+      rw [hpn, hpp]
+      conv => lhs; rw [← List.take_append_drop 32 data]
+      congr 1
+      conv => lhs; rw [← List.take_append_drop (L - 64) (data.drop 32)]
+      congr 1
+      rw [List.drop_drop]
+      congr 1
+      omega
+    refine ⟨le32 (p.payload.length + 64) ++ (p.nonce ++ (p.payload ++ data.drop (L - 32))),
+      ⟨data.drop (L - 32), rfl, by rw [hpn]; simp [List.length_take, hdl]; omega,
+        by simp [List.length_drop, hdl]; omega, by omega, by rw [hsum, hpn, hpp]⟩, ?_⟩
+    have hL' : p.payload.length + 64 = L := by omega
+    have h4' : (s.take 4).length = 4 := by simp [List.length_take]; omega
+    rw [hL', ← hsplit, xorStream_append, ← hhdr, xorStream_xorStream, xorStream_length, h4', ← hdata, xorStream_xorStream, hr]
+    rw [List.append_assoc]
+    conv => lhs; rw [← List.take_append_drop 4 s]
+    congr 1
+    exact (List.take_append_drop L (s.drop 4)).symm
+  · rintro ⟨frame, ⟨c, hf, hn, hc, hl, hsum⟩, hs⟩
+    rw [hs, hf, parse_plain H ks off p.nonce p.payload c rest hn hc hl, if_pos hsum]
+
 /-! ### handshake -/
 
 section
